@@ -377,8 +377,39 @@ impl<'a, 'b> Renderer<'a, 'b> {
             }
         }
         if self.take(Feat::Indexed) && self.s.chance(1, 3) {
-            self.mark("indexed_object");
-            t = atom(format!("{{ k: {}; z: number }}[\"k\"]", t.s));
+            match self.s.below(3) {
+                0 | 1 => {
+                    self.mark("indexed_object");
+                    t = atom(format!("{{ k: {}; z: number }}[\"k\"]", t.s));
+                }
+                _ if !self.sem_safe(d) => {
+                    *self.excluded.entry("indexed_tuple_over_recursive_or_template_type".to_string()).or_insert(0) += 1;
+                }
+                _ => {
+                    // element of a tuple with a rest element, picked by a literal index (the last fixed position is the
+                    // boundary case): directly and through an alias (the alias takes the semantic path)
+                    self.mark("indexed_tuple");
+                    // (the element type goes through the semantic engine, like an Exclude operand: it inherits the engine's
+                    // listed findings, which the checks key on this mark)
+                    self.mark("exclude");
+                    let before = self.s.below(3);
+                    let pads = ["string", "number", "null"];
+                    let mut elems: Vec<String> = (0..before).map(|i| pads[i % 3].to_string()).collect();
+                    elems.push(t.s.clone());
+                    let last = self.s.chance(1, 2);
+                    if !last {
+                        elems.push("boolean".to_string());
+                    }
+                    let tuple = format!("[{}, ...bigint[]]", elems.join(", "));
+                    if self.s.chance(1, 2) {
+                        let n = self.fresh("Row");
+                        self.decls.push(format!("type {} = {};", n, tuple));
+                        t = atom(format!("{}[{}]", n, before));
+                    } else {
+                        t = atom(format!("{}[{}]", tuple, before));
+                    }
+                }
+            }
         }
         if self.take(Feat::Cond) && self.s.chance(1, 3) {
             t = self.conditional(t);
